@@ -13,7 +13,7 @@ FUNCTIONS = [("pandapower.build_branch", "_calc_line_parameter"), ("pandapower.b
              ("pandapower.build_branch", "_calc_branch_values_from_trafo_df"), ("pandapower.build_branch", "_calc_tap_from_dataframe"),
              ("pandapower.build_branch", "_calc_nominal_ratio_from_dataframe"), ("pandapower.build_branch", "_calc_r_x_from_dataframe"),
              ("pandapower.build_branch", "_calc_y_from_dataframe"), ("pandapower.build_branch", "_wye_delta"),
-             ("pandapower.build_branch", "_calc_impedance_parameter"), ("pandapower.build_branch", "_calc_impedance_parameters_from_dataframe"),
+             ("pandapower.build_branch", "_calc_impedance_parameter"), ("pandapower.build_branch", "_calc_impedance_parameters_from_dataframe"), ("pandapower.build_branch", "_calc_switch_parameter"),
              ("pandapower.pypower.makeYbus", "branch_vectors"), ("pandapower.results_branch", "_get_line_results"),
              ("pandapower.results_branch", "_get_trafo_results"), ("pandapower.pypower.makeBdc", "makeBdc"),
              ("pandapower.pypower.makeBdc", "calc_b_from_branch")]
@@ -238,8 +238,53 @@ def make_impedance():
     return fn
 
 
+# ------------------------------------------------------------------------------------------------- impedance switch
+def _switch_net():
+    if "sw" not in _cache:
+        net = pp.create_empty_network(sn_mva=10.)
+        b0 = pp.create_bus(net, 20.)
+        b1 = pp.create_bus(net, 20.)
+        pp.create_ext_grid(net, b0)
+        pp.create_switch(net, b0, b1, "b", closed=True, z_ohm=2.)
+        pp.create_load(net, b1, 1., 0.5)
+        pp.runpp(net, numba=False, lightsim2grid=False)
+        _cache["sw"] = net
+    return _cache["sw"]
+
+
+def switch_two_port(ctx, sn, z, k, vn):
+    """real _calc_switch_parameter + branch_vectors for a closed bus-bus switch with z_ohm > 0"""
+    from pandapower.pypower.idx_bus import BASE_KV
+    bb = ctx.load("pandapower.build_branch")
+    mY = ctx.load("pandapower.pypower.makeYbus")
+    net = copy.deepcopy(_switch_net())
+    setcol(ctx, net.switch, "z_ohm", [z])
+    net.sn_mva = sn
+    net._options["switch_rx_ratio"] = 2 * k / (1 - k * k)       # sqrt(1 + rx^2) = (1 + k^2) / (1 - k^2)
+    ppc = {"bus": ctx.obj(net._ppc["bus"]), "branch": ctx.obj(net._ppc["branch"].real), "baseMVA": sn}
+    ppc["bus"][:, BASE_KV] = vn
+    bb._calc_switch_parameter(net, ppc)
+    f, t = net._pd2ppc_lookups["branch"]["switch"]
+    return _two_port(ctx, mY, ppc["branch"][f])
+
+
+def make_switch():
+    def fn(ctx):
+        sn, z, k, vn = ctx.var("sn_mva", 1., 1000.), ctx.var("z_ohm", 0.01, 50.), ctx.var("k_rx", 0.05, 0.9), ctx.var("vn_kv", 0.4, 400.)
+        got = switch_two_port(ctx, sn, z, k, vn)
+        zb = vn * vn / sn
+        rx = 2 * k / (1 - k * k)
+        root = (1 + k * k) / (1 - k * k)
+        zz = _cx(ctx, z / zb * rx / root, z / zb / root)         # |z| = z_ohm / Z_base, r / x = switch_rx_ratio
+        ref = {"Yff": 1 / zz, "Ytt": 1 / zz, "Yft": -1 / zz, "Ytf": -1 / zz}
+        for kk in ref:
+            ctx.eq(f"impedance_switch_two_port/{kk}", got[kk], ref[kk])
+    return fn
+
+
 def instances(tier):
     out = [Inst("line", make_line(), nvars=20, samples=3, meta=dict(element="line")),
+           Inst("impedance_switch", make_switch(), nvars=16, samples=3, meta=dict(element="bus-bus switch with z_ohm > 0")),
            Inst("impedance", make_impedance(), nvars=20, samples=3, meta=dict(element="impedance"))]
     combos = [("None", "hv", "pi"), ("Ratio", "hv", "pi"), ("Ratio", "lv", "pi"), ("Ideal", "hv", "pi"), ("Ideal", "lv", "pi"),
               ("IdealPct", "hv", "pi"), ("IdealPct", "lv", "pi"), ("Ratio", "hv", "t")]
